@@ -846,7 +846,22 @@ def check():
                 nowit.append("%s/%s" % (s["eval"], key))
         o.extra["sites_without_accepted_witness"] = nowit
 
-    emitter_lemmas(o, M, MO)
+    # the checker resolves names statically, the evaluator by name on a stack: they agree only if arguments are evaluated
+    # in the caller's context (lemma shared with C08) - otherwise a value of another kind reaches a cast
+    try:
+        import props.c08 as c08
+        app_bad = []
+
+        def app_structural(name, ok, why=None):
+            o.query(name, "mirsym/structural", "unsat" if ok else "violated", 0)
+            if not ok:
+                app_bad.append(why or name)
+            return ok
+        c08.application_lemmas(o, M, E, M.one(r"^(eval::)?eval_application$"), app_structural)
+    except KeyError as exn:
+        o.inconc(str(exn)[:160])
+        app_bad = []
+    emitter_lemmas(o, M, MO, app_bad)
     o.samples = [{"site": q["name"], "verdict": q["verdict"], "models": q.get("models")} for q in o.queries[:30]]
     return o.finish()
 
@@ -863,12 +878,12 @@ EMITTER_PROGRAMS = {
 }
 
 
-def emitter_lemmas(o, M, MO):
+def emitter_lemmas(o, M, MO, extra_bad=()):
     """value_schema's unreachable!() arms and the VariadicOp/Range split."""
     E = mirlib.enums()
     L = mirlib.Lemma(o)
     S = L.smt
-    bad = []
+    bad = list(extra_bad)
 
     def on_sat(name, model):
         bad.append(name)
